@@ -64,4 +64,22 @@ def addrs (m : HMWE) : List Nat := m.filterMap (·.2)
 /-- no two keys share a cell -/
 def NoAlias (m : HMWE) : Prop := (addrs m).Nodup
 
+/-! ## the loop body of `WithServicesEnvironmentResolved` on the heap -/
+
+/-- the strings of an all-pointer map: what the `resolve` closure reads through `*v` -/
+def derefStr (h : Cells) (m : HMWE) : List (Key × Str) := ofMWE (deref h m)
+
+def loadEnvFilesH (penv : List (Key × Str)) (fs : FS) : List EnvFile → HMWE → Cells → Except Err (HMWE × Cells)
+  | [], acc, h => .ok (acc, h)
+  | f :: r, acc, h =>
+    match loadEnvFile fs f (envChain penv (derefStr h acc)) with
+    | .error e => .error e
+    | .ok vars => loadEnvFilesH penv fs r (overrideBy acc (toMWEH vars h).1) (toMWEH vars h).2
+
+def resolveServiceEnvH (penv : List (Key × Str)) (fs : FS) (env : HMWE) (efs : List EnvFile) (h : Cells) :
+    Except Err (HMWE × Cells) :=
+  match loadEnvFilesH penv fs efs [] (resolveH (fun k => lookup k penv) env h).2 with
+  | .error e => .error e
+  | .ok r => .ok (overrideBy r.1 (resolveH (fun k => lookup k penv) env h).1, r.2)
+
 end CV.EnvLayers.Heap
